@@ -338,11 +338,12 @@ class Gen:
         return {"op": "update", "a": a.id, "d": did, "idx": idx}
 
     def g_update_sigma(self):
-        c = self.pick(("cond",), lambda s: s.u is None and s.cls not in model.HETERO)
+        c = self.pick(("cond",), lambda s: s.cls not in model.HETERO)
         if c is None:
             return None
         diag = "Diag" in c.cls
-        return {"op": "update_sigma", "a": c.id, "Sigma": self.r.spd(c.R, int(c.obj.Dy), self.cfg["cond_max"], diag=diag)}
+        R = 1 if c.u is not None else c.R
+        return {"op": "update_sigma", "a": c.id, "Sigma": self.r.spd(R, int(c.obj.Dy), self.cfg["cond_max"], diag=diag)}
 
     def g_truncate(self):
         r = self.r
